@@ -21,7 +21,7 @@ import time
 from . import valcodec
 from .net import Net, BUS
 
-STREAMS = ['net-exhaustive', 'net-random', 'net-revisions', 'net-deadlines', 'net-spy', 'net-corpus', 'bytes-net', 'net-sameproxy']
+STREAMS = ['net-exhaustive', 'net-random', 'net-revisions', 'net-deadlines', 'net-spy', 'net-corpus', 'bytes-net', 'net-sameproxy', 'net-shared']
 THEOREMS = ['link_refinement', 'link_refinement_framing_laws', 'link_refinement_txdbus_framing',
             'call_stage_invariant', 'call_in_exactly_one_stage', 'queues_hold_only_issued_calls',
             'C11_end_to_end', 'quiescence_reachable', 'C11_completion_always_reachable',
@@ -602,6 +602,37 @@ def gen_sameproxy_scenario(rng):
             'family': 'sameproxy'}
 
 
+def share_class(scn, rng):
+    """ONE exporter class used twice (STATE_AUDIT G5): a second INSTANCE of the class of export 0 is exported as well - on
+    another client, or at another path (below the first) of the same client - and calls made to the first object are
+    repeated against the twin, so that both instances are called, alternating.  The oracle is the usual one per call, plus:
+    the method must have run on the instance the call was addressed to."""
+    e0 = 0
+    base = scn['exports'][e0]
+    twin = {'client': base['client'], 'path': base['path'] + '/b', 'ifaces': base['ifaces'], 'same_class_as': e0}
+    if scn['n'] > 1 and rng.random() < 0.6:
+        twin['client'] = rng.choice([c for c in range(scn['n']) if c != base['client']])
+        twin['path'] = base['path'] if rng.random() < 0.5 else base['path'] + '/b'
+    for k_ in ('layout', 'levels', 'depth', 'split', 'override', 'split_decl'):
+        if k_ in base:
+            twin[k_] = base[k_]
+    scn['exports'].append(twin)
+    scn['plans'].append(list(scn['plans'][e0]))
+    ti = len(scn['exports']) - 1
+    mine = [c for c in scn['calls'] if c['export'] == e0]
+    extra = []
+    for c in mine[:2] or []:
+        d = {k_: v for k_, v in c.items() if k_ not in ('reuse', 'after', 'after_issued', 'dest_name')}
+        d['export'] = ti
+        extra.append(d)
+        if rng.random() < 0.5:
+            d2 = {k_: v for k_, v in c.items() if k_ not in ('reuse', 'after', 'after_issued')}
+            extra.append(d2)                 # ... and the first object once more, after its twin
+    scn['calls'] += extra
+    scn['family'] = 'shared-class'
+    return scn
+
+
 def bytes_scenario(rng):
     """An ordinary scenario restricted to what the byte-level model can express: no big-endian peers (one `enc` per
     message: item (5) of the list next to the `_partial` theorem), no relay (a call issued INSIDE a delivery is written
@@ -754,7 +785,8 @@ class Run:
     """One execution of a scenario on the real code under one schedule."""
 
     def __init__(self, scn, chooser, message_granular, catch_all=False, advance=False, bytes_mode=False,
-                 drain_tail=None, hs_mode=False):
+                 drain_tail=None, hs_mode=False, shared_tables=False):
+        self.shared_tables = shared_tables
         self.hs_mode = hs_mode            # byte mode: the model starts BEFORE the end of the handshake (`BNet.initH`)
         self.hs_pending = {}              # (client, direction) -> handshake bytes still in front of the model's wire
         self.bytes_mode = bytes_mode      # model lines drive the BYTE-level model (`bstep`): one line per read
@@ -778,7 +810,9 @@ class Run:
         from txdbus import objects, interface, introspection
         from txdbus.interface import DBusInterface, Method
         scn = self.scn
-        self.net = net = Net()        # every peer starts from the import-time knownInterfaces (harness/net.py)
+        # every peer starts from the import-time knownInterfaces (harness/net.py); `shared_tables`: all clients are
+        # connections of ONE process (one serial counter, one knownInterfaces)
+        self.net = net = Net(shared_tables=self.shared_tables)
         n = scn['n'] + (1 if self.catch_all else 0)
         self.conns = net.connect_all(n, big_endian=set(scn.get('big_endian', [])))
         self.name_of = [c.busName for c in self.conns]
@@ -791,8 +825,23 @@ class Run:
         self.layouts = []        # per export: the generated classes in MRO order: [[(attr, fid, deco)]]
         self.func_ids = {}
         fid_next = [1]
+        self.klasses = []
+        self.obj_export = {}
         for ei, spec in enumerate(scn['exports']):
             j = spec['client']
+            if spec.get('same_class_as') is not None:
+                # ANOTHER INSTANCE of the class built for an earlier export (on another client, or at another path of
+                # the same client): whatever txdbus keeps per class is shared by the two exports
+                e0 = spec['same_class_as']
+                klass = self.klasses[e0]
+                self.klasses.append(klass)
+                self.layouts.append(self.layouts[e0])
+                obj = klass(spec['path'])
+                with net.as_peer(j):
+                    self.conns[j].exportObject(obj)
+                self.exp_objs.append(obj)
+                self.obj_export[id(obj)] = ei
+                continue
             layout = spec.get('layout', 'plain')
             ifs = []
             for i in spec['ifaces']:
@@ -908,6 +957,8 @@ class Run:
             with net.as_peer(j):
                 self.conns[j].exportObject(obj)
             self.exp_objs.append(obj)
+            self.klasses.append(klass)
+            self.obj_export[id(obj)] = ei
         # well-known names: the exporter owns the name, another client waits in the queue behind it
         for ei, spec in enumerate(scn['exports']):
             nm = spec.get('wkname')
@@ -1003,14 +1054,14 @@ class Run:
                     out += [hs(nm), '%d' % fid, '~', '~']
         return ' '.join(out)
 
-    def _make_props_wrapper(self, ei, pm, fid):
+    def _make_props_wrapper(self, ei0, pm, fid):
         from txdbus import objects
         base = objects.DBusObject.__dict__['_dbus_Property' + pm]
-        spec = self.scn['exports'][ei]
-        j = spec['client']
 
         def wrapper(obj, *args):
-            rec = {'export': ei, 'client': j, 'iface': 'org.freedesktop.DBus.Properties', 'member': pm,
+            ei = self.obj_export.get(id(obj), ei0)
+            j = self.net._peer if isinstance(self.net._peer, int) else self.scn['exports'][ei]['client']
+            rec = {'export': ei, 'client': j, 'self_export': ei, 'iface': 'org.freedesktop.DBus.Properties', 'member': pm,
                    'args': list(args), 'impl': fid, 'caller': '-', 'kind': 'properties',
                    'sigOut': {'Get': 'v', 'Set': '', 'GetAll': 'a{sv}'}[pm]}
             rec['nret'] = len(complete_types(rec['sigOut']))
@@ -1049,12 +1100,14 @@ class Run:
                 out += [hs(m.name), hs(m.sigIn), hs(m.sigOut), '%d' % m.nargs, '%d' % m.nret]
         return ' '.join(out)
 
-    def _make_hook(self, ei):
+    def _make_hook(self, ei0):
         from twisted.internet import defer
-        spec = self.scn['exports'][ei]
-        j = spec['client']
 
         def hook(obj, fid, iface, member, args, caller):
+            # WHICH instance ran (a class may be exported several times: `same_class_as`), and on which peer
+            ei = self.obj_export.get(id(obj), ei0)
+            spec = self.scn['exports'][ei]
+            j = self.net._peer if isinstance(self.net._peer, int) else spec['client']
             k = self.inv_count[j]
             self.inv_count[j] += 1
             plan = self.scn['plans'][ei]
@@ -1074,7 +1127,7 @@ class Run:
             sig_out = decl[2]
             rec = {'export': ei, 'client': j, 'iface': iface, 'member': member, 'args': list(args), 'impl': fid,
                    'caller': caller, 'kind': kind, 'sigOut': sig_out, 'nret': len(complete_types(sig_out)),
-                   'own_sigOut': sig_out}
+                   'own_sigOut': sig_out, 'self_export': ei}
             if kind == 'relay' and 'relay' not in self.scn:
                 kind = 'value'
             rec['kind'] = kind
@@ -1653,6 +1706,8 @@ class Run:
                 self.codec_lines(mark)
         if self.bytes_mode:
             self.open_links()
+        if self.shared_tables:
+            self.serial_lines()
         self.lines.append('quiescent')
         self.expect.append('yes')
         if self.bytes_mode:
@@ -1660,6 +1715,28 @@ class Run:
                 self.lines.append('logs %d' % c)
                 self.expect.append(' '.join(self.cum.get(c, {}).get('inv', []) + self.cum.get(c, {}).get('done', [])))
         self.oracle()
+
+    def serial_lines(self):
+        """Shared-table mode: the clients are connections of ONE process and draw their serials from one counter, while
+        the model keeps one counter per client.  Before every model step in which a client sends, the model is told
+        which serial that client's next message gets (the first one the implementation used in that step)."""
+        import re
+        out_l, out_e = [], []
+        for ln, ex in zip(self.lines, self.expect):
+            w_ = ln.split(' ')
+            n_ = None
+            if w_[0] == 'call' and ex.startswith('sent '):
+                n_ = int(ex.split(' ')[1])
+            elif w_[0] in ('toClient', 'resolve'):
+                m_ = re.search(r'sent\((?:call|reply)\((\d+),', ex)
+                if m_:
+                    n_ = int(m_.group(1))
+            if n_ is not None:
+                out_l.append('serial %s %d' % (w_[1], n_))
+                out_e.append('ok')
+            out_l.append(ln)
+            out_e.append(ex)
+        self.lines, self.expect = out_l, out_e
 
     # -------------------------------------------------------------- byte-level model lines
     def codec_lines(self, mark):
@@ -1895,6 +1972,14 @@ class Run:
                           observed=len(invs), expected=1)
                 continue
             rec = invs[0]
+            if rec.get('self_export', call['export']) != call['export']:
+                other = self.scn['exports'][rec['self_export']]
+                self.flag('wrong-instance-invoked',
+                          'the call went to the object at %s of client %d, but the method ran on ANOTHER instance of the '
+                          'same class: the one exported at %s of client %d' % (spec['path'], spec['client'],
+                                                                              other['path'], other['client']),
+                          observed=[other['client'], other['path']], expected=[spec['client'], spec['path']])
+                continue
             bound = doc_bound(self.layouts[call['export']], call.get('chosen_iface'), call['member'])
             if rec['impl'] != bound:
                 self.flag('wrong-method-invoked',
@@ -1999,7 +2084,7 @@ def exhaustive_runs(scn, limit, deadline=None):
 
 
 def random_run(scn, seed, granular=False, catch_all=False, advance=0, bytes_mode=False, drain_tail=None,
-               hs_mode=False):
+               hs_mode=False, shared_tables=False):
     rng = random.Random('sched/%r' % (seed,))
 
     def fresh(opts):
@@ -2020,15 +2105,16 @@ def random_run(scn, seed, granular=False, catch_all=False, advance=0, bytes_mode
         return idx, nb
     ch = Chooser([], fresh, coin_rng=rng)
     r = Run(scn, ch, message_granular=granular, catch_all=catch_all, advance=advance > 0, bytes_mode=bytes_mode,
-            drain_tail=drain_tail, hs_mode=hs_mode)
+            drain_tail=drain_tail, hs_mode=hs_mode, shared_tables=shared_tables)
     r.execute()
     return r
 
 
-def replay_run(scn, choices, granular, advance=False, bytes_mode=False, drain_tail=None, hs_mode=False):
+def replay_run(scn, choices, granular, advance=False, bytes_mode=False, drain_tail=None, hs_mode=False,
+               shared_tables=False):
     ch = Chooser(choices, lambda opts: (0, None))
     r = Run(scn, ch, message_granular=granular, advance=advance, bytes_mode=bytes_mode, drain_tail=drain_tail,
-            hs_mode=hs_mode)
+            hs_mode=hs_mode, shared_tables=shared_tables)
     r.execute()
     return r
 
@@ -2042,6 +2128,13 @@ def report(ctx, stream, runs):
     pos = 0
     for r in runs:
         inp = {'scenario': r.scn, 'choices': r.chooser.taken, 'granular': r.granular, 'advance': r.advance}
+        if r.shared_tables:
+            inp['shared_tables'] = True
+        ctx.stat('tables=' + ('one-process' if r.shared_tables else 'per-peer'))
+        if any(e.get('same_class_as') is not None for e in r.scn['exports']):
+            tw = [e for e in r.scn['exports'] if e.get('same_class_as') is not None][0]
+            ctx.stat('one-class-two-exports=' + ('two-clients' if tw['client'] != r.scn['exports'][tw['same_class_as']]['client']
+                                                 else 'one-client'))
         if r.bytes_mode:
             inp['bytes_mode'] = True
             inp['drain_tail'] = r.drain_tail
@@ -2096,7 +2189,7 @@ def run(ctx):
         inp = case.get('input', case)
         runs.append(replay_run(inp['scenario'], inp.get('choices', []), inp.get('granular', True), inp.get('advance', False),
                                bytes_mode=inp.get('bytes_mode', False), drain_tail=inp.get('drain_tail'),
-                   hs_mode=inp.get('hs_mode', False)))
+                   hs_mode=inp.get('hs_mode', False), shared_tables=inp.get('shared_tables', False)))
     if runs:
         report(ctx, 'net-corpus', runs)
     else:
@@ -2139,6 +2232,14 @@ def run(ctx):
         scn = gen_deadline_scenario(rng) if k % 3 else gen_scenario(rng)
         batch.append(random_run(scn, (ctx.seed, 'dl', k, rng.random()), advance=2))
     report(ctx, 'net-deadlines', batch)
+    # ---- state shared between exports / connections (STATE_AUDIT G5, G13): one exporter CLASS instantiated twice (two
+    # clients, or two paths of one client), both instances called; half of the runs with all clients as connections of
+    # ONE process (one serial counter, one knownInterfaces table)
+    batch = []
+    for k in range(ctx.scale(quick=50, thorough=500)):
+        scn = share_class(gen_scenario(rng), rng) if k % 4 != 3 else gen_scenario(rng)
+        batch.append(random_run(scn, (ctx.seed, 'shared', k, rng.random()), shared_tables=(k % 2 == 1)))
+    report(ctx, 'net-shared', batch)
     # ---- sequences of calls on ONE proxy, default and `interface=` calls of a method name several interfaces share
     batch = []
     for k in range(ctx.scale(quick=50, thorough=500)):
@@ -2180,5 +2281,5 @@ def replay(ctx, data):
         return
     r = replay_run(inp['scenario'], inp.get('choices', []), inp.get('granular', True), inp.get('advance', False),
                    bytes_mode=inp.get('bytes_mode', False), drain_tail=inp.get('drain_tail'),
-                   hs_mode=inp.get('hs_mode', False))
+                   hs_mode=inp.get('hs_mode', False), shared_tables=inp.get('shared_tables', False))
     report(ctx, 'net-corpus', [r])
